@@ -1,10 +1,11 @@
+\* generated from checks/C07.py (the check passes the same text as cfg_text); kept for running TLC by hand
 SPECIFICATION MCSpec
 CONSTANTS
   Vars = {"x", "y"}
-  Ops = {"append", "touch", "removeif", "ensure", "sort", "copy", "moveappend", "ecopy", "emove", "markro", "put", "remove", "move", "fromraw", "clear"}
-  SMin = 1
+  Ops = {"append", "put", "touch", "remove", "removeif", "ensure", "sort", "copy", "move", "moveappend", "ecopy", "emove", "fromraw", "clear", "markro"}
+  SMin = 0
   SMax = 2
-  Preds = {"first", "last", "evens", "all"}
+  Preds = {"first", "last", "evens", "all", "ideven"}
   Keys = {1, 2, 3}
   Caps = {4}
   RawLens = {0, 2}
@@ -12,7 +13,7 @@ CONSTANTS
   MaxLen = 3
   MaxKids = 2
   ZeroTouch = TRUE
-  MaxSteps = 2
+  MaxSteps = 3
   InitLens = {0, 2, 3}
 INVARIANT TypeOK
 PROPERTY MCProp
